@@ -401,9 +401,16 @@ package syncer
 //@     invariant collected: got == i#3 && i#3 <= cap(errChan) && nonNil >= 0 && (len(errs) == 0 <==> nonNil == 0) && len(errs) >= 0
 
 // distributeTask: success means the end-of-snapshot marker was seen
+func SpecFnv(key []byte) uint32 { panic("abstract spec function") }
+
+//@ spec SpecFnv abstract
+//@ func util.FnvHash(key) (h)
+//@   trusted library-like hash (abstract: SpecFnv)
+//@   modifies nothing
+//@   ensures value: h == SpecFnv(key)
 //@ func RedisOutput.sendRdb$distributeTask
 //@   arith int
-//@   properties C04
+//@   properties C04 C20 C03
 //@   ghost var ended mathint = 0
 //@   ghost var ctxDone mathint = 0
 //@   modifies heap, ended, ctxDone, consumed
@@ -415,7 +422,8 @@ package syncer
 //@   ghost var consumed mathint = 0 - 1
 //@   set consumed = result after call Load
 //@   assert at call Store: a_snapshot_is_complete_only_at_the_size_the_source_announced: nsize > 0 ==> consumed == nsize
-//@   replay syncer_zeroCrcEarlyEnd
+//@   replay syncer_zeroCrcEarlyEnd syncer_emptyKeySplitFanout
+//@   assert after store idx: every_chunk_of_a_key_goes_to_the_same_worker_whatever_the_keys_length [C20 C03]: e != nil && e.ObjectParser != nil && rdb.SpecObjType(e.ObjectParser) != rdb.RdbObjectFunction && rdb.SpecObjType(e.ObjectParser) != rdb.RdbObjectAux ==> idx == SpecFnv(e.Key) % pipeLen
 //@   loop 1:
 //@     invariant progress: ended == 0
 
